@@ -9,6 +9,11 @@ CHECKS = {
     text="Generated-history search: rule-based state machines drive PriorityQueue and ComponentFinder and compare with an abstract model after every step; all short sequences over a small alphabet are enumerated exhaustively. Gives strong evidence over small item/score domains, no proof for unbounded histories.",
     note="Trusted: the dict/relabelling models and Python tuple ordering as the definition of lexicographic score order; operations the code documents as illegal (push of a queued item, change_score of an absent one, pop on empty) are not generated.",
     ref="DESIGN.md section 4, C18"),
+ "C19": dict(
+    technique="exhaustive small-scope enumeration plus Hypothesis-sampled cases against the VCF index formula and a textbook Levenshtein DP",
+    text="All genotypes up to ploidy 8 x 8 alleles (10 x 10 thorough) and all string pairs over small alphabets up to a bounded length with every band are enumerated; larger ploidies/alleles (to 14/16) and strings to length 200 are sampled. Exhaustive inside the stated bounds, sampled beyond.",
+    note="Trusted: math.comb-based VCF ordering formula and the full-matrix Levenshtein reference; pickle is not exercised because Genotype cannot be pickled by construction.",
+    ref="DESIGN.md section 4, C19"),
 }
 
 NOT_YET = {}
